@@ -61,6 +61,12 @@ class PGen(Gen):
                     nm = f"{an}{i}" if len(shape) == 1 else f"{an}{i // shape[1]}{i % shape[1]}"
                     concolic.VAL[sympy.Symbol(nm, real=True)] = float(x)
 
+    def trace(self, name, inputs, fn, **kw):
+        # an entry point that does not run on symbols is reported (run(): gen:trace:<name>) instead of aborting the
+        # whole check: the theorems that need it break, everything else -- in particular the oracle -- still runs
+        kw['optional'] = True
+        return super().trace(name, inputs, fn, **kw)
+
     def ptrace(self, name, inputs, fn, at, **kw):
         """trace fn on symbols along the path taken at the concrete point `at` (list of values per input)"""
         self._setval(inputs, at)
@@ -70,6 +76,10 @@ class PGen(Gen):
             with concolic.object_alloc():
                 return fn(*a)
         t = self.trace(name, inputs, wrapped, num_fn=kw.pop('num_fn', None) or fn, **kw)
+        if t is None:
+            concolic.PATH.clear()
+            concolic.VAL.clear()
+            return None
         atoms, seen = [], set()
         for rel, truth in concolic.PATH:
             k = (str(rel), truth)
@@ -194,6 +204,7 @@ def build(ctx):
     g.trace('tr_T3_se3', [('S', 'V6')], lambda S: T3(S).se3())
     g.trace('tr_T3_inv', [('S', 'V6')], lambda S: T3(S).inv().S)
     g.trace('tr_T3_smul', [('S', 'V6'), ('k', 'S')], lambda S, k: (T3(S) * k).S)
+    g.trace('tr_T3_rsmul', [('S', 'V6'), ('k', 'S')], lambda S, k: (k * T3(S)).S)      # scalar on the left (__rmul__)
     g.trace('tr_vexa4', [('X', 'M44')], lambda X: base.vexa(X))
     g.trace('tr_getunit_deg', [('th', 'S')], lambda th: base.getunit(th, 'deg'))
     g.btrace('bt_T3_isprismatic', [('S', 'V6')], lambda S: T3(S).isprismatic)
@@ -221,6 +232,8 @@ def build(ctx):
              num_fn=lambda S, k: (T3(S) * k).exp().A, sampler=lambda rng: [np.r_[rand_unit(rng), 0, 0, 0], th_main(rng)])
     g.ptrace('tr_T3_smulexp_zero', [('S', 'V6'), ('k', 'S')], lambda S, k: base.trexp((T3(S) * k).S * 1), [S6, 0.0],
              num_fn=lambda S, k: (T3(S) * k).exp().A, sampler=lambda rng: [rev(rng), float(rng.choice([0.0, 1e-20, -1e-19]))])
+    g.ptrace('tr_T3_rsmulexp_rev', [('S', 'V6'), ('k', 'S')], lambda S, k: base.trexp((k * T3(S)).S * 1), [S6, 0.7],
+             num_fn=lambda S, k: (k * T3(S)).exp().A, sampler=lambda rng: [rev(rng), th_main(rng)], tol=1e-10)
     g.ptrace('tr_T3_invexp_rev', [('S', 'V6'), ('th', 'S')], lambda S, th: base.trexp(T3(S).inv().S * th), [S6, 0.7],
              num_fn=lambda S, th: T3(S).inv().exp(th).A, sampler=lambda rng: [rev(rng), th_main(rng)], tol=1e-10)
     # exp of the se(3) matrix form
@@ -237,6 +250,7 @@ def build(ctx):
     g.trace('tr_T2_se2', [('S', 'V3')], lambda S: T2(S).se2())
     g.trace('tr_T2_inv', [('S', 'V3')], lambda S: T2(S).inv().S)
     g.trace('tr_T2_smul', [('S', 'V3'), ('k', 'S')], lambda S, k: (T2(S) * k).S)
+    g.trace('tr_T2_rsmul', [('S', 'V3'), ('k', 'S')], lambda S, k: (k * T2(S)).S)
     g.trace('tr_vexa3', [('X', 'M33')], lambda X: base.vexa(X))
     g.btrace('bt_T2_isprismatic', [('S', 'V3')], lambda S: T2(S).isprismatic)
     g.model('bt_T2_isprismatic', [('S', 'V3')], 'B', coq='bt_T2_isprismatic', module=None,
@@ -252,6 +266,8 @@ def build(ctx):
              sampler=lambda rng: [np.r_[rand_unit(rng, 2), 0], th_main(rng)])
     g.ptrace('tr_T2_smulexp_rev', [('S', 'V3'), ('k', 'S')], lambda S, k: base.trexp2((T2(S) * k).S * 1), [S3, 0.7],
              num_fn=lambda S, k: (T2(S) * k).exp().A, sampler=lambda rng: [rev2(rng), th_main(rng)], tol=1e-10)
+    g.ptrace('tr_T2_rsmulexp_rev', [('S', 'V3'), ('k', 'S')], lambda S, k: base.trexp2((k * T2(S)).S * 1), [S3, 0.7],
+             num_fn=lambda S, k: (k * T2(S)).exp().A, sampler=lambda rng: [rev2(rng), th_main(rng)], tol=1e-10)
     g.ptrace('tr_T2_invexp_rev', [('S', 'V3'), ('th', 'S')], lambda S, th: base.trexp2(T2(S).inv().S * th), [S3, 0.7],
              num_fn=lambda S, th: T2(S).inv().exp(th).A, sampler=lambda rng: [rev2(rng), th_main(rng)], tol=1e-10)
     g.ptrace('tr_trexp2_se2_rev', [('S', 'V3')], lambda S: base.trexp2(T2(S).se2()), [S3],
@@ -385,9 +401,17 @@ def case3(ctx, a, q, theta, unit, form, lams):
             Tk = c.call('exp', lambda: Sk.exp())
             if Tk is not None:
                 c.near('exp-of-smul', Tk.A, T, sq)
-        Sr = Chk(ctx, 'Twist3', inp).call('rmul', lambda: theta * S)
+        # scalar on the left: k*S == S*k, exp(k*S) == S.exp(k)   (float and int factors)
+        c3 = Chk(ctx, 'Twist3', inp)
+        Sr = c3.call('left-scalar', lambda: theta * S)
         if Sr is not None:
-            Chk(ctx, 'Twist3', inp).near('rmul', Sr.S if len(Sr) == 1 else np.nan, S.S * theta, sq * max(1.0, abs(theta)))
+            c3.near('left-scalar', Sr.S if len(Sr) == 1 else np.nan, S.S * theta, sq * max(1.0, abs(theta)))
+            Tr = c3.call('exp-of-left-scalar', lambda: Sr.exp())
+            if Tr is not None and len(Sr) == 1:
+                c3.near('exp-of-left-scalar', Tr.A, T, sq)
+        Sr = c3.call('left-scalar-int', lambda: 2 * S)
+        if Sr is not None:
+            c3.near('left-scalar-int', Sr.S if len(Sr) == 1 else np.nan, S.S * 2, sq)
     # ---- accessors
     c.near('pitch-zero', c.call('pitch', lambda: S.pitch()), 0.0, sq)
     c.near('theta-is-one', c.call('theta', lambda: S.theta()), 1.0)
@@ -482,12 +506,15 @@ def case2(ctx, a, q, theta, unit, form):
                     c.near('exp-of-smul', Tk.A, T, sq)
             # scalar on the left: a float factor and an int factor
             c2 = Chk(ctx, 'Twist2', inp)
-            Sr = c2.call('rmul', lambda: theta * S)
+            Sr = c2.call('left-scalar', lambda: theta * S)
             if Sr is not None:
-                c2.near('rmul', Sr.S if len(Sr) == 1 else np.nan, S.S * theta, sq * max(1.0, abs(theta)))
-            Sr = c2.call('rmul-int', lambda: 2 * S)
+                c2.near('left-scalar', Sr.S if len(Sr) == 1 else np.nan, S.S * theta, sq * max(1.0, abs(theta)))
+                Tr = c2.call('exp-of-left-scalar', lambda: Sr.exp())
+                if Tr is not None and len(Sr) == 1:
+                    c2.near('exp-of-left-scalar', Tr.A, T, sq)
+            Sr = c2.call('left-scalar-int', lambda: 2 * S)
             if Sr is not None:
-                c2.near('rmul-int', Sr.S if len(Sr) == 1 else np.nan, S.S * 2, sq)
+                c2.near('left-scalar-int', Sr.S if len(Sr) == 1 else np.nan, S.S * 2, sq)
     if unit == 'rad':
         c = Chk(ctx, 'Twist2.Prismatic', inp)
         P = c.call('construct', lambda: Twist2.Prismatic(a))
@@ -563,6 +590,8 @@ def run(ctx):
         g = build(ctx)
         path = ctx.write_gen(MOD + '.v', g.coq_text())
     ctx.stats['paths'] = {k: v for k, v in g.paths.items()}
+    for name, why in g.failed:
+        ctx.fail('gen:trace:' + name, f"the library call behind {name} no longer runs on symbols: {why}", no_input=True)
     rc, out, err, dt = ctx.coqc(path)
     if rc != 0:
         ctx.fail('gen:compile', 'generated traces do not compile: ' + err[-800:], no_input=True)
